@@ -21,6 +21,38 @@ CHECKS = {
         technique="TLA+ reference order model-checked with TLC; TLC-computed comparison matrix replayed into the code"),
 }
 
+RATING_NOTE = ("TLC; the in-process fake network (harness/fakenet.py, peers.py) standing in for sockets; the text/JSON report parsers "
+               "(harness/report.py); the live rating tables exported by harness/extract_tables.py are the spec's constant DB")
+CHECKS.update({
+    'C01': dict(category='model_checking',
+        text=("SshRating.tla models the report pipeline (one Render action per advertised name); invariant ShownIsAdvertised (names shown per category = "
+              "non-blank advertised names, as sequences) is checked by TLC on every list of bounded length over {good,warn,fail,unknown,gss,blank} per "
+              "category and role, and every emitted state is replayed through the real CLI in plain/batch/verbose/JSON; harness-chosen lists (every "
+              "database name, long, non-UTF-8, duplicates) get their expected report from the same spec evaluated by TLC."),
+        design='8 C01', note=RATING_NOTE, technique='TLC model checking of SshRating.tla; spec states replayed into the CLI (text and JSON)'),
+    'C02': dict(category='model_checking',
+        text=("The exit status is the fold SshRating!Fold over rendered lines; TLC checks ExitRule, StatusDomain and the action property StatusMonotone on "
+              "all 4^4 severity mixes across categories and all bounded orderings within a category; each state is replayed under six option sets, and the "
+              "recorded rated-event trace of every run is validated by TLC against TraceRating.tla (every invariant evaluated at every step)."),
+        design='8 C02', note=RATING_NOTE + '; the rated events come from the guarded wrapper around output_algorithm (harness/observe.py)',
+        technique='TLC model checking + trace validation of recorded runs against TraceRating.tla'),
+    'C03': dict(category='model_checking',
+        text=("One rating operator SshRating!Line(case, cat, name) defines all views; TLC checks PositionIndependent and UnknownFlagged on every case and "
+              "supplies the expected notes for every database name in four positions, two roles, sized contexts; text, JSON and --lookup output of the real "
+              "CLI are compared with it per level."),
+        design='8 C03', note=RATING_NOTE, technique='TLC-evaluated rating operator as oracle for text/JSON/--lookup of every database name'),
+    'C04': dict(category='model_checking',
+        text=("The Terrapin rule (Marker, VulnEnc, VulnMac, Advisory, Suppressed) is written from the published rule in SshRating.tla; TLC enumerates the whole "
+              "class space (role x marker x ChaCha x CBC x ETM x others; exhaustive) deciding TerrapinExact and NeverAddTerrapinProne, every class is replayed "
+              "through the CLI (client role through -c), and each class is instantiated with every matching database name and unknown names of the same shape."),
+        design='8 C04', note=RATING_NOTE, technique='exhaustive TLC enumeration of the Terrapin class space, every state replayed into the CLI'),
+    'C13': dict(category='model_checking',
+        text=("SshRating!RecsOf transcribes the statement (del/chg, add, critical, suppression, availability through SshVersionOps!AvailableSince); TLC checks "
+              "RecsConsistent on every case and supplies the expected recommendation set for peers x banners around every first-appeared version; (rec) lines "
+              "and JSON recommendations are compared with it and cross-checked against the notes of the same report."),
+        design='8 C13', note=RATING_NOTE, technique='TLC-evaluated recommendation rule as oracle; replay over peers x product versions'),
+})
+
 NOT_BUILT = {}
 
 
